@@ -19,6 +19,7 @@ import EasyMl.Lemmas.Equality
 import EasyMl.Lemmas.Swap
 import EasyMl.Lemmas.MapZip
 import EasyMl.Lemmas.MapMut
+import EasyMl.Lemmas.EqualBy
 
 namespace EasyMl.C13
 open EasyMl EasyMl.Spec
@@ -477,5 +478,62 @@ example :
     let three := (Tensor.ofVal ⟨[("b", 2), ("a", 3)], [1, 2, 3, 4, 5, 6]⟩).view
     tensorSimilarity one two = true ∧ tensorEquality one two = false ∧
     tensorSimilarity one three = false ∧ tensorSimilarity two one = true := by decide
+
+/-- Similarity is transitive (with `similar_refl`, `similar_symm`: an equivalence relation on
+    valid sources, at every dimensionality). -/
+theorem similar_trans [DecidableEq α] [Inhabited ν] (a b c : TView ν α) (ha : a.lazy.Valid)
+    (hb : b.lazy.Valid) (hc : c.lazy.Valid) (h₁ : tensorSimilarity a b = true)
+    (h₂ : tensorSimilarity b c = true) : tensorSimilarity a c = true :=
+  (tensorSimilarity_iff a c ha hc).2
+    (similar_trans' hb hc ((tensorSimilarity_iff a b ha hb).1 h₁) ((tensorSimilarity_iff b c hb hc).1 h₂))
+
+/-! ### equality and similarity for an arbitrary element comparison (`T: PartialEq` only)
+
+The code requires only `T: PartialEq`; for `f64` that comparison is not reflexive.  The theorems
+below are for an arbitrary `rel : α → α → Bool` standing for the element type's `==`; nothing is
+assumed about it. -/
+
+/-- the lawful-equality functions above are the instances at `decide (· = ·)` -/
+theorem equalityBy_instance [DecidableEq α] [Inhabited ν] (l r : TView ν α) :
+    tensorEquality l r = tensorEqualityBy (fun a b => decide (a = b)) l r ∧
+    tensorSimilarity l r = tensorSimilarityBy (fun a b => decide (a = b)) l r :=
+  ⟨rfl, rfl⟩
+
+/-- **Equality for any element comparison**: `tensor_equality` — hence all four `PartialEq`
+    forms — answers exactly "same shape, and `rel (l i) (r i)` at every index tuple `i`". -/
+theorem eqBy_iff (rel : α → α → Bool) (l r : TView ν α) (hl : l.lazy.Valid) (hr : r.lazy.Valid) :
+    tensorEqualityBy rel l r = true ↔
+      l.shape = r.shape ∧
+      ∀ idx, inBounds (l.shape.map (·.2)) idx = true →
+        cellRel rel (l.get idx) (r.get idx) = true :=
+  tensorEqualityBy_iff rel l r hl hr
+
+/-- **A tensor compared with itself** is equal exactly when every stored element is `rel`-related
+    to itself.  So for an irreflexive comparison (`NaN`) `t == t` must be `false`: an
+    identity shortcut (`ptr::eq(self, other) || …`) is not the function the code computes. -/
+theorem eqBy_self_iff (rel : α → α → Bool) (shape : Shape ν) (data : List α) (t : Tensor ν α)
+    (ht : Tensor.tryFrom shape data = some t) :
+    tensorEqualityBy rel t.view t.view = true ↔ ∀ x ∈ data, rel x x = true := by
+  obtain ⟨hv, he, _⟩ := view_valid shape data t ht
+  rw [tensorEqualityBy_iff rel _ _ hv hv, equalBy_congr_left rel he,
+    ← equalBy_congr_right rel he.symm rfl]
+  exact equalBy_self_ofData rel shape data t ht
+
+/-- **Similarity for any element comparison**: some ordering of the right operand's names makes
+    it equal (in the sense of `eqBy_iff`) to the left operand. -/
+theorem similarBy_iff [Inhabited ν] (rel : α → α → Bool) (l r : TView ν α) (hl : l.lazy.Valid)
+    (hr : r.lazy.Valid) :
+    tensorSimilarityBy rel l r = true ↔
+      ∃ names, IsOrdering r.shape names ∧ EqualBy rel l.lazy (reordered r.lazy names) :=
+  tensorSimilarityBy_iff rel l r hl hr
+
+/-- Non-vacuity: an IEEE-like comparison (`none` plays NaN).  A tensor holding it is neither equal
+    nor similar to itself; without it both hold. -/
+example :
+    let rel : Option Nat → Option Nat → Bool := fun a b => a.isSome && decide (a = b)
+    let nan := (Tensor.ofVal ⟨[("a", 2)], [some 1, none]⟩).view
+    let fin := (Tensor.ofVal ⟨[("a", 2)], [some 1, some 2]⟩).view
+    tensorEqualityBy rel nan nan = false ∧ tensorSimilarityBy rel nan nan = false ∧
+    tensorEqualityBy rel fin fin = true ∧ tensorSimilarityBy rel fin fin = true := by decide
 
 end EasyMl.C13
